@@ -220,7 +220,7 @@ Section Monitor.
     let epoch := c_epoch cs0 in
     let n := h_num h in
     let sealer := match tab_ecrecover tab 0 h with Some a => to_addr a | None => [] end in
-    let e_link := negb ((n =? h_num hd + 1) && bytes_eqb (to_hash (h_parent h)) (tab_hash tab hd)
+    let e_link := negb ((n =? add64 (h_num hd) 1) && bytes_eqb (to_hash (h_parent h)) (tab_hash tab hd)
                         && opt_eqb Nat.eqb (o_head post) (Some i)) in
     let is_epoch := n mod epoch =? 0 in
     let e_struct := negb ((97 <=? len (h_extra h)) && bytes_eqb (to_hash (h_mix h)) (zeros 32)
